@@ -363,57 +363,61 @@ func runC20(cfg *runCfg) error {
 				fail(ci, "round_trip_blocks", "q_simple_tables_reimported_as_paragraphs", fmt.Sprintf("with UseGFMTables off the tables of %s are exported as %q and come back as paragraphs", viewString(v1), md), nil)
 				// everything else is still compared: every other block comes back as itself, in order, and the blocks a
 				// table comes back as hold the text of its cells, in order
+				// alignment with backtracking: a run of tables may come back as any number of blocks (also none, when all
+				// cells are empty), and the blocks it comes back as may look like the block that follows
 				why := ""
-				k := 0
-				for i := 0; i < len(v1) && why == ""; {
-					if v1[i].kind != "table" {
-						if k >= len(v2) || viewString(v1[i:i+1]) != viewString(v2[k:k+1]) {
-							why = fmt.Sprintf("block %d (%s) does not come back as itself", i, viewString(v1[i:i+1]))
-						}
-						k++
-						i++
-						continue
-					}
-					// a maximal run of tables: the blocks up to the one that equals the next other block
-					var cells []string
-					first := i
-					for i < len(v1) && v1[i].kind == "table" {
-						for _, row := range v1[i].rows {
-							cells = append(cells, row...)
-						}
-						i++
-					}
+				cellsIn := func(cells []string, blocks []vBlock) bool {
 					var got strings.Builder
-					for k < len(v2) && (i >= len(v1) || viewString(v1[i:i+1]) != viewString(v2[k:k+1])) {
-						for _, rn := range v2[k].runs {
+					for _, b := range blocks {
+						for _, rn := range b.runs {
 							got.WriteString(rn.text)
 						}
 						got.WriteString(" ")
-						k++
 					}
 					flat := strings.Join(strings.Fields(got.String()), " ")
 					at := 0
 					for _, cell := range cells {
 						c := strings.Join(strings.Fields(cell), " ")
-						if c == "" || why != "" {
+						if c == "" {
 							continue
 						}
 						p := strings.Index(flat[at:], c)
 						if p < 0 {
-							why = fmt.Sprintf("the text %q of a cell of the tables from block %d on is not (in order) in what they come back as (%q)", c, first, flat)
-						} else {
-							at += p + len(c)
+							return false
+						}
+						at += p + len(c)
+					}
+					return true
+				}
+				var align func(i, k int) bool
+				align = func(i, k int) bool {
+					if i == len(v1) {
+						return k == len(v2)
+					}
+					if v1[i].kind != "table" {
+						return k < len(v2) && viewString(v1[i:i+1]) == viewString(v2[k:k+1]) && align(i+1, k+1)
+					}
+					var cells []string
+					e := i
+					for e < len(v1) && v1[e].kind == "table" {
+						for _, row := range v1[e].rows {
+							cells = append(cells, row...)
+						}
+						e++
+					}
+					for m := 0; k+m <= len(v2); m++ {
+						if cellsIn(cells, v2[k:k+m]) && align(e, k+m) {
+							return true
 						}
 					}
+					return false
 				}
-				if why == "" && k != len(v2) {
-					why = "more blocks come back than were exported"
+				if !align(0, 0) {
+					why = "the blocks beside the tables do not come back as themselves in order, or the text of a cell of the tables is not (in order) in what the tables come back as"
 				}
 				if why != "" {
 					class := pre + "round_trip"
-					if strings.Contains(why, "of a cell of the tables") {
-						class = "simple_table_text_lost"
-					}
+					class = "simple_table_text_lost"
 					fail(ci, "round_trip_blocks", class, fmt.Sprintf("options %+v: document %s exports to %q, which converts back to %s: %s (beyond tables coming back as paragraphs)", *opts, viewString(v1), md, viewString(v2), why), map[string]interface{}{"markdown": md})
 				}
 				continue
